@@ -2,8 +2,8 @@
    This file pins the statements; it contains nothing but `exact`.
    What is proved here is the OFFSET ALGEBRA of every front-end (UTF-8 byte<->char maps, the
    byte-span conversion with its overlap filter, Mask::parse, the Typst cursor, Markdown's
-   traversed_bytes/traversed_chars, the comment-leader line loops, the ignore markers, the Literate
-   Haskell masker).  WHICH nodes/events are prose is decided by third-party parsers and is reached by
+   traversed_bytes/traversed_chars, the comment-leader line loops, the ignore markers and the shebang line, Go directives, the
+   Literate Haskell masker, the git-commit cut).  WHICH nodes/events are prose is decided by third-party parsers and is reached by
    the constructed-ground-truth search of harness/src/bin/c04.rs, not by these theorems. *)
 Require Import Base Mask MaskProofs MaskFrontends Tables_masks.
 
@@ -210,32 +210,61 @@ Print Assumptions C04_md_text_chunk.
 
 (* ---- Code / InlineMath / DisplayMath / Html / InlineHtml events, Text inside a code block and (with
    ignore_link_title) Text directly inside a link only ever produce Unlintable tokens *)
-Theorem C04_md_code_unlintable : forall lex ilt src stack tc ev out st,
-  md_event_step lex ilt src stack tc ev = Ok (out, st) ->
+Theorem C04_md_code_unlintable : forall lex ilt src bs rs stack tc ev out st,
+  md_event_step lex ilt src bs rs stack tc ev = Ok (out, st) ->
   (match ev with
    | ECodeLike _ | EHtml _ => True
-   | EText _ => match stack with
-                | TCodeBlock :: _ => True
-                | TLink :: _ => ilt = true
-                | _ => False
-                end
+   | EText _ _ => match stack with
+                  | TCodeBlock :: _ => True
+                  | TLink :: _ => ilt = true
+                  | _ => False
+                  end
    | _ => False
    end) ->
   forall tk, In tk out -> tkind tk = K_UNLINTABLE.
 Proof. exact md_code_unlintable. Qed.
-Check C04_md_code_unlintable : forall lex ilt src stack tc ev out st,
-  md_event_step lex ilt src stack tc ev = Ok (out, st) ->
+Check C04_md_code_unlintable : forall lex ilt src bs rs stack tc ev out st,
+  md_event_step lex ilt src bs rs stack tc ev = Ok (out, st) ->
   (match ev with
    | ECodeLike _ | EHtml _ => True
-   | EText _ => match stack with
-                | TCodeBlock :: _ => True
-                | TLink :: _ => ilt = true
-                | _ => False
-                end
+   | EText _ _ => match stack with
+                  | TCodeBlock :: _ => True
+                  | TLink :: _ => ilt = true
+                  | _ => False
+                  end
    | _ => False
    end) ->
   forall tk, In tk out -> tkind tk = K_UNLINTABLE.
 Print Assumptions C04_md_code_unlintable.
+
+(* ---- F27 / FC04f fixed (548c418): a Text event whose source range [rs, re) lies on char boundaries, handled at
+   the true char offset of its range start, never panics, and the chunk it claims is at most the event's text
+   length AND at most the number of chars its source range holds: it ends at or before the true char offset of
+   range.end — inside the source, whatever text pulldown-cmark synthesised (tab columns with an empty range).
+   What is pushed is nothing, ONE Unlintable token over exactly that chunk, or the lexer's tokens of exactly
+   that chunk of the source *)
+Theorem C04_md_text_clamped : forall lex ilt (src : text) rs re stack n,
+  Forall valid_char src -> rs <= re ->
+  is_boundary (encode src) rs = true -> is_boundary (encode src) re = true ->
+  let bs := encode src in
+  let tc := char_index bs rs in
+  exists cl out, md_event_step lex ilt src bs rs stack tc (EText n re) = Ok (out, stack) /\
+    cl <= n /\ tc + cl <= char_index bs re /\ char_index bs re <= length src /\
+    (out = [] \/
+     (0 < cl /\ out = [mktok (mkspan tc (tc + cl)) K_UNLINTABLE]) \/
+     (0 < cl /\ out = map (tpush tc) (lex (slice src tc (tc + cl))))).
+Proof. exact md_text_clamped. Qed.
+Check C04_md_text_clamped : forall lex ilt (src : text) rs re stack n,
+  Forall valid_char src -> rs <= re ->
+  is_boundary (encode src) rs = true -> is_boundary (encode src) re = true ->
+  let bs := encode src in
+  let tc := char_index bs rs in
+  exists cl out, md_event_step lex ilt src bs rs stack tc (EText n re) = Ok (out, stack) /\
+    cl <= n /\ tc + cl <= char_index bs re /\ char_index bs re <= length src /\
+    (out = [] \/
+     (0 < cl /\ out = [mktok (mkspan tc (tc + cl)) K_UNLINTABLE]) \/
+     (0 < cl /\ out = map (tpush tc) (lex (slice src tc (tc + cl))))).
+Print Assumptions C04_md_text_clamped.
 
 (* ---- without_initiators never panics; its span is inside the line and everything it cuts off at either end
    is a comment character (generated table) or whitespace *)
@@ -284,40 +313,142 @@ Check C04_unit_total : forall (is_whitespace : N -> bool) (inner : text -> list 
   exists toks, unit_parse is_whitespace inner src = Ok toks.
 Print Assumptions C04_unit_total.
 
-(* ---- a span of the comment mask never contains one of the GENERATED ignore markers and never starts with a
-   generated prefix (#!), and it is a span of the underlying tree-sitter mask *)
+(* ---- CommentMasker::create_mask over the GENERATED marker list and shebang prefix: on a well-formed tree-sitter
+   mask it never panics (Span::new(span.start + line_len, span.end) always gets start <= end), it is the per-span
+   function keep_of applied in order, and the result is again sorted, disjoint and in bounds *)
+Theorem C04_comment_mask_total : forall is_whitespace (src : text) nodes m0,
+  ts_create_mask is_whitespace src nodes = Ok m0 -> mask_wf (length src) m0 ->
+  comment_create_mask is_whitespace ignore_markers ignore_prefixes shebang_prefix src nodes
+    = Ok (keep_all ignore_markers ignore_prefixes shebang_prefix src m0) /\
+  mask_wf (length src) (keep_all ignore_markers ignore_prefixes shebang_prefix src m0).
+Proof. exact (fun w => comment_mask_exact w ignore_markers ignore_prefixes shebang_prefix). Qed.
+Check C04_comment_mask_total : forall is_whitespace (src : text) nodes m0,
+  ts_create_mask is_whitespace src nodes = Ok m0 -> mask_wf (length src) m0 ->
+  comment_create_mask is_whitespace ignore_markers ignore_prefixes shebang_prefix src nodes
+    = Ok (keep_all ignore_markers ignore_prefixes shebang_prefix src m0) /\
+  mask_wf (length src) (keep_all ignore_markers ignore_prefixes shebang_prefix src m0).
+Print Assumptions C04_comment_mask_total.
+
+(* ---- a span of the comment mask never contains one of the GENERATED ignore markers; it is a span of the
+   underlying tree-sitter mask that does not start with the generated shebang prefix (#!), or such a span that
+   does, minus its first line (up to and including its first newline).  FC04b fixed (075dccb): a shebang hides its
+   own line and only that *)
 Theorem C04_ignore_markers : forall is_whitespace (src : text) nodes m0 m,
   ts_create_mask is_whitespace src nodes = Ok m0 -> mask_wf (length src) m0 ->
-  comment_create_mask is_whitespace ignore_markers ignore_prefixes src nodes = Ok m ->
-  forall s, In s m -> In s m0 /\ ~ carries_marker ignore_markers ignore_prefixes (slice src (sstart s) (send s)).
+  comment_create_mask is_whitespace ignore_markers ignore_prefixes shebang_prefix src nodes = Ok m ->
+  forall s, In s m ->
+    ~ carries_marker ignore_markers ignore_prefixes (slice src (sstart s) (send s)) /\
+    exists s0, In s0 m0 /\ send s = send s0 /\
+      ((s = s0 /\ starts_with shebang_prefix (slice src (sstart s0) (send s0)) = false) \/
+       (starts_with shebang_prefix (slice src (sstart s0) (send s0)) = true /\
+        exists p, position is_nl (slice src (sstart s0) (send s0)) = Some p /\
+                  sstart s = sstart s0 + p + 1 /\ sstart s <= send s)).
 Proof. exact ignore_markers_respected. Qed.
 Check C04_ignore_markers : forall is_whitespace (src : text) nodes m0 m,
   ts_create_mask is_whitespace src nodes = Ok m0 -> mask_wf (length src) m0 ->
-  comment_create_mask is_whitespace ignore_markers ignore_prefixes src nodes = Ok m ->
-  forall s, In s m -> In s m0 /\ ~ carries_marker ignore_markers ignore_prefixes (slice src (sstart s) (send s)).
+  comment_create_mask is_whitespace ignore_markers ignore_prefixes shebang_prefix src nodes = Ok m ->
+  forall s, In s m ->
+    ~ carries_marker ignore_markers ignore_prefixes (slice src (sstart s) (send s)) /\
+    exists s0, In s0 m0 /\ send s = send s0 /\
+      ((s = s0 /\ starts_with shebang_prefix (slice src (sstart s0) (send s0)) = false) \/
+       (starts_with shebang_prefix (slice src (sstart s0) (send s0)) = true /\
+        exists p, position is_nl (slice src (sstart s0) (send s0)) = Some p /\
+                  sstart s = sstart s0 + p + 1 /\ sstart s <= send s)).
 Print Assumptions C04_ignore_markers.
 
-(* ---- ... and a span that carries no marker is kept *)
+(* ---- ... and conversely: a span without shebang and without marker is kept whole; of a span that starts with
+   the shebang prefix everything after its first newline is kept when that remainder carries no marker *)
 Theorem C04_unmarked_kept : forall is_whitespace (src : text) nodes m0 m,
   ts_create_mask is_whitespace src nodes = Ok m0 -> mask_wf (length src) m0 ->
-  comment_create_mask is_whitespace ignore_markers ignore_prefixes src nodes = Ok m ->
-  forall s, In s m0 -> ~ carries_marker ignore_markers ignore_prefixes (slice src (sstart s) (send s)) -> In s m.
+  comment_create_mask is_whitespace ignore_markers ignore_prefixes shebang_prefix src nodes = Ok m ->
+  forall s0, In s0 m0 ->
+    let content := slice src (sstart s0) (send s0) in
+    (starts_with shebang_prefix content = false ->
+     ~ carries_marker ignore_markers ignore_prefixes content -> In s0 m) /\
+    (starts_with shebang_prefix content = true -> forall p, position is_nl content = Some p ->
+     ~ carries_marker ignore_markers ignore_prefixes (skipn (p + 1) content) ->
+     In (mkspan (sstart s0 + p + 1) (send s0)) m).
 Proof. exact unmarked_kept. Qed.
 Check C04_unmarked_kept : forall is_whitespace (src : text) nodes m0 m,
   ts_create_mask is_whitespace src nodes = Ok m0 -> mask_wf (length src) m0 ->
-  comment_create_mask is_whitespace ignore_markers ignore_prefixes src nodes = Ok m ->
-  forall s, In s m0 -> ~ carries_marker ignore_markers ignore_prefixes (slice src (sstart s) (send s)) -> In s m.
+  comment_create_mask is_whitespace ignore_markers ignore_prefixes shebang_prefix src nodes = Ok m ->
+  forall s0, In s0 m0 ->
+    let content := slice src (sstart s0) (send s0) in
+    (starts_with shebang_prefix content = false ->
+     ~ carries_marker ignore_markers ignore_prefixes content -> In s0 m) /\
+    (starts_with shebang_prefix content = true -> forall p, position is_nl content = Some p ->
+     ~ carries_marker ignore_markers ignore_prefixes (skipn (p + 1) content) ->
+     In (mkspan (sstart s0 + p + 1) (send s0)) m).
 Print Assumptions C04_unmarked_kept.
 
+(* ---- Go::parse, FC04c fixed (017736b): never panics, and is exactly the inner parse of the comment without its
+   initiators shifted by their length — or, when that text starts with "go:", the inner parse of
+   source[t .. actual.end) shifted by t, t = the first newline of the comment (nothing when there is none before
+   actual.end): the directive line is skipped, the block after it is parsed at its own source coordinates *)
+Theorem C04_go_exact : forall (is_whitespace : N -> bool) (inner : text -> list tok) (src : text),
+  exists actual, without_initiators is_whitespace src = Ok actual /\
+    sstart actual <= send actual <= length src /\
+    go_parse is_whitespace inner src =
+    Ok (if starts_with GO_DIRECTIVE (slice src (sstart actual) (send actual)) then
+          match position is_nl src with
+          | None => []
+          | Some t => if send actual <=? t then []
+                      else map (tpush t) (inner (slice src t (send actual)))
+          end
+        else map (tpush (sstart actual)) (inner (slice src (sstart actual) (send actual)))).
+Proof. exact go_parse_exact. Qed.
+Check C04_go_exact : forall (is_whitespace : N -> bool) (inner : text -> list tok) (src : text),
+  exists actual, without_initiators is_whitespace src = Ok actual /\
+    sstart actual <= send actual <= length src /\
+    go_parse is_whitespace inner src =
+    Ok (if starts_with GO_DIRECTIVE (slice src (sstart actual) (send actual)) then
+          match position is_nl src with
+          | None => []
+          | Some t => if send actual <=? t then []
+                      else map (tpush t) (inner (slice src t (send actual)))
+          end
+        else map (tpush (sstart actual)) (inner (slice src (sstart actual) (send actual)))).
+Print Assumptions C04_go_exact.
+
+(* ---- ... hence every Go token is an inner token of ONE slice source[a .. b) shifted by a: inside [a, b), same
+   text in the file as in the inner parse *)
+Theorem C04_go_offsets : forall (is_whitespace : N -> bool) (inner : text -> list tok),
+  (forall c t0, In t0 (inner c) -> sstart (tspan t0) <= send (tspan t0)) ->
+  (forall c t0, In t0 (inner c) -> send (tspan t0) <= length c) ->
+  forall (src : text) toks, go_parse is_whitespace inner src = Ok toks ->
+  exists a b, a <= b <= length src /\
+    (exists actual, without_initiators is_whitespace src = Ok actual /\ b = send actual /\
+       (a = sstart actual \/
+        (starts_with GO_DIRECTIVE (slice src (sstart actual) (send actual)) = true /\ position is_nl src = Some a))) /\
+    Forall (fun tk => exists t0, In t0 (inner (slice src a b)) /\ tk = tpush a t0 /\
+              a <= sstart (tspan tk) /\ sstart (tspan tk) <= send (tspan tk) /\ send (tspan tk) <= b /\
+              slice src (sstart (tspan tk)) (send (tspan tk))
+              = slice (slice src a b) (sstart (tspan t0)) (send (tspan t0))) toks.
+Proof. exact go_offsets. Qed.
+Check C04_go_offsets : forall (is_whitespace : N -> bool) (inner : text -> list tok),
+  (forall c t0, In t0 (inner c) -> sstart (tspan t0) <= send (tspan t0)) ->
+  (forall c t0, In t0 (inner c) -> send (tspan t0) <= length c) ->
+  forall (src : text) toks, go_parse is_whitespace inner src = Ok toks ->
+  exists a b, a <= b <= length src /\
+    (exists actual, without_initiators is_whitespace src = Ok actual /\ b = send actual /\
+       (a = sstart actual \/
+        (starts_with GO_DIRECTIVE (slice src (sstart actual) (send actual)) = true /\ position is_nl src = Some a))) /\
+    Forall (fun tk => exists t0, In t0 (inner (slice src a b)) /\ tk = tpush a t0 /\
+              a <= sstart (tspan tk) /\ sstart (tspan tk) <= send (tspan tk) /\ send (tspan tk) <= b /\
+              slice src (sstart (tspan tk)) (send (tspan tk))
+              = slice (slice src a b) (sstart (tspan t0)) (send (tspan t0))) toks.
+Print Assumptions C04_go_offsets.
+
 (* ---- Literate Haskell: before merging, the mask is exactly one span per line that the state machine selects
-   (lhs_line: fences and the blank line closing a bird block excluded, '> ' skipped, clamped to the line end); it never panics *)
+   (lhs_line: fences and the blank line closing a bird block excluded, '> ' skipped, clamped to the line end), started
+   with last_line_blank = TRUE (FC04a fixed, 358394a); it never panics *)
 Theorem C04_lhs_raw_mask : forall is_whitespace want_text want_code src,
   lhs_raw_mask is_whitespace want_text want_code src
-  = Ok (lhs_spans is_whitespace want_text want_code (split_lines src) 0 false false).
+  = Ok (lhs_spans is_whitespace want_text want_code (split_lines src) 0 false true).
 Proof. exact lhs_raw_mask_exact. Qed.
 Check C04_lhs_raw_mask : forall is_whitespace want_text want_code src,
   lhs_raw_mask is_whitespace want_text want_code src
-  = Ok (lhs_spans is_whitespace want_text want_code (split_lines src) 0 false false).
+  = Ok (lhs_spans is_whitespace want_text want_code (split_lines src) 0 false true).
 Print Assumptions C04_lhs_raw_mask.
 
 (* ---- ... and the final mask is sorted, disjoint and in bounds *)
@@ -328,14 +459,33 @@ Check C04_lhs_mask : forall is_whitespace want_text want_code src,
   exists m, lhs_create_mask is_whitespace want_text want_code src = Ok m /\ mask_wf (length src) m.
 Print Assumptions C04_lhs_mask.
 
-(* ---- git commit: what is parsed is the longest prefix without '#' *)
+(* ---- FC04a fixed: a '>' line that opens the file is a program line — no span in the text mask, its text after
+   '> ' in the code mask — and the lines after it are classified in the code state *)
+Theorem C04_lhs_leading_bird : forall (is_whitespace : N -> bool) (want_text want_code : bool) l rest,
+  is_whitespace 62%N = false ->
+  lhs_spans is_whitespace want_text want_code ((62%N :: l) :: rest) 0 false true =
+  (if want_code then [mkspan (Nat.min 2 (S (length l))) (S (length l))] else []) ++
+  lhs_spans is_whitespace want_text want_code rest (S (length l) + 1) true false.
+Proof. exact lhs_leading_bird. Qed.
+Check C04_lhs_leading_bird : forall (is_whitespace : N -> bool) (want_text want_code : bool) l rest,
+  is_whitespace 62%N = false ->
+  lhs_spans is_whitespace want_text want_code ((62%N :: l) :: rest) 0 false true =
+  (if want_code then [mkspan (Nat.min 2 (S (length l))) (S (length l))] else []) ++
+  lhs_spans is_whitespace want_text want_code rest (S (length l) + 1) true false.
+Print Assumptions C04_lhs_leading_bird.
+
+(* ---- git commit, FC04g fixed (15b9a7f): the scan never panics; what is parsed is the longest prefix that
+   contains no line starting with '#' (a '#' inside a line is ordinary text); the cut is at the first '#' that opens
+   a line, or at the end *)
 Theorem C04_git_commit_cut : forall src : text,
-  git_commit_cut src <= length src /\ ~ In 35%N (firstn (git_commit_cut src) src) /\
-  (git_commit_cut src < length src -> nth_error src (git_commit_cut src) = Some 35%N).
+  exists e, git_commit_cut src = Ok e /\ e <= length src /\
+    (forall k, k < e -> ~ line_start_hash src k) /\ (e < length src -> line_start_hash src e) /\
+    forall inner, git_commit_parse inner src = Ok (inner (firstn e src)).
 Proof. exact git_commit_cut_spec. Qed.
 Check C04_git_commit_cut : forall src : text,
-  git_commit_cut src <= length src /\ ~ In 35%N (firstn (git_commit_cut src) src) /\
-  (git_commit_cut src < length src -> nth_error src (git_commit_cut src) = Some 35%N).
+  exists e, git_commit_cut src = Ok e /\ e <= length src /\
+    (forall k, k < e -> ~ line_start_hash src k) /\ (e < length src -> line_start_hash src e) /\
+    forall inner, git_commit_parse inner src = Ok (inner (firstn e src)).
 Print Assumptions C04_git_commit_cut.
 
 (* ---- non-vacuity ---- *)
@@ -381,12 +531,16 @@ Proof. cbv zeta. split; [repeat constructor; unfold valid_char; lia|]. vm_comput
 (* Markdown "é `x` b": Start(Paragraph)@0, Text(2)@0, Code(1)@3, Text(2)@6, End@0-ish; the premises of C04_md_offsets hold *)
 Example C04_md_nonvacuous :
   let src := [233; 32; 96; 120; 96; 32; 98]%N in
-  let evs := [(EStart TParagraph, 0); (EText 2, 0); (ECodeLike 1, 3); (EText 2, 6)] in
+  let evs := [(EStart TParagraph, 0); (EText 2 3, 0); (ECodeLike 1, 3); (EText 2 8, 6)] in
   let lex := fun c : text => [mktok (mkspan 0 (length c)) 5%N] in
   starts_from 0 (map snd evs) /\ Forall (fun e => is_boundary (encode src) (snd e) = true) evs /\
   md_loop lex false src (encode src) evs 0 0 []
-  = Ok [mktok (mkspan 0 2) 5%N; mktok (mkspan 2 3) K_UNLINTABLE; mktok (mkspan 5 7) 5%N].
-Proof. cbv zeta. split; [cbn; lia|]. split; [repeat constructor|vm_compute; reflexivity]. Qed.
+  = Ok [mktok (mkspan 0 2) 5%N; mktok (mkspan 2 3) K_UNLINTABLE; mktok (mkspan 5 7) 5%N] /\
+  (* a synthesised Text (3 chars claimed, empty source range at byte 8): nothing is pushed; a text longer than
+     its range [6,8) is clamped to the 2 chars the range holds *)
+  md_event_step lex false src (encode src) 8 [TParagraph] 7 (EText 3 8) = Ok ([], [TParagraph]) /\
+  md_event_step lex false src (encode src) 6 [TParagraph] 5 (EText 9 8) = Ok ([mktok (mkspan 5 7) 5%N], [TParagraph]).
+Proof. cbv zeta. split; [cbn; lia|]. split; [repeat constructor|vm_compute; repeat split; reflexivity]. Qed.
 
 (* "/// river" and a two-line block through Unit with an inner parser returning its whole input *)
 Example C04_unit_nonvacuous :
@@ -401,20 +555,52 @@ Proof.
   split; vm_compute; reflexivity.
 Qed.
 
-(* "# a" / "# harper:ignore b" / "#!x": the marked comments vanish from the mask *)
+(* "# a" / "# harper:ignore b": the marked comment vanishes from the mask; "#!x\n# a": only the shebang line does;
+   a lone "#!x" vanishes *)
 Example C04_ignore_nonvacuous :
   ignore_condition ignore_markers ignore_prefixes [35; 32; 104; 97; 114; 112; 101; 114; 58; 105; 103; 110; 111; 114; 101; 32; 98]%N = true /\
-  ignore_condition ignore_markers ignore_prefixes [35; 33; 120]%N = true /\
   ignore_condition ignore_markers ignore_prefixes [35; 32; 97]%N = false /\
-  comment_create_mask ws_table ignore_markers ignore_prefixes
+  comment_create_mask ws_table ignore_markers ignore_prefixes shebang_prefix
     [35; 32; 97; 10; 120; 10; 35; 32; 104; 97; 114; 112; 101; 114; 58; 105; 103; 110; 111; 114; 101]%N
-    [mkspan 0 3; mkspan 6 21] = Ok [mkspan 0 3].
+    [mkspan 0 3; mkspan 6 21] = Ok [mkspan 0 3] /\
+  comment_create_mask ws_table ignore_markers ignore_prefixes shebang_prefix
+    [35; 33; 120; 10; 35; 32; 97]%N [mkspan 0 3; mkspan 4 7] = Ok [mkspan 4 7] /\
+  comment_create_mask ws_table ignore_markers ignore_prefixes shebang_prefix
+    [35; 33; 120; 10; 121]%N [mkspan 0 3] = Ok [].
 Proof. vm_compute. repeat split; reflexivity. Qed.
+
+(* Go "//go:build x\n// a": the block after the directive line is parsed at its own coordinates *)
+Example C04_go_nonvacuous :
+  let inner := fun c : text => [mktok (mkspan 0 (length c)) 5%N] in
+  (forall c t0, In t0 (inner c) -> sstart (tspan t0) <= send (tspan t0)) /\
+  (forall c t0, In t0 (inner c) -> send (tspan t0) <= length c) /\
+  go_parse ws_table inner [47; 47; 103; 111; 58; 98; 117; 105; 108; 100; 32; 120; 10; 47; 47; 32; 97]%N
+  = Ok [mktok (mkspan 12 17) 5%N] /\
+  go_parse ws_table inner [47; 47; 32; 97]%N = Ok [mktok (mkspan 3 4) 5%N].
+Proof.
+  cbv zeta. split; [intros c t0 [<-|[]]; cbn; lia|]. split; [intros c t0 [<-|[]]; cbn; lia|].
+  vm_compute. split; reflexivity.
+Qed.
+
+(* git commit "Fixes #1 x\n# c": the mid-line '#' is text, the cut is at the comment line (11) *)
+Example C04_git_nonvacuous :
+  git_commit_cut [70; 105; 120; 101; 115; 32; 35; 49; 32; 120; 10; 35; 32; 99]%N = Ok 11 /\
+  line_start_hash [70; 105; 120; 101; 115; 32; 35; 49; 32; 120; 10; 35; 32; 99]%N 11 /\
+  ~ line_start_hash [70; 105; 120; 101; 115; 32; 35; 49; 32; 120; 10; 35; 32; 99]%N 6.
+Proof.
+  split; [vm_compute; reflexivity|]. split.
+  - split; [reflexivity|]. right. exists 10. split; reflexivity.
+  - intros [_ [H|(j & Hj & Hn)]]; [discriminate|]. inversion Hj; subst j. cbn in Hn. discriminate.
+Qed.
 
 (* "a" / "" / "> b" / "" / "c" / "\begin{code}" / "d" / "\end{code}" / ">" : text mask and code mask *)
 Example C04_lhs_nonvacuous :
   let src := [97; 10; 10; 62; 32; 98; 10; 10; 99; 10; 92; 98; 101; 103; 105; 110; 123; 99; 111; 100; 101; 125; 10; 100; 10;
               92; 101; 110; 100; 123; 99; 111; 100; 101; 125; 10; 62]%N in
   lhs_create_mask ws_table true false src = Ok [mkspan 0 2; mkspan 8 9; mkspan 37 37] /\
-  lhs_create_mask ws_table false true src = Ok [mkspan 5 6; mkspan 23 24].
-Proof. vm_compute. split; reflexivity. Qed.
+  lhs_create_mask ws_table false true src = Ok [mkspan 5 6; mkspan 23 24] /\
+  (* "> b" / "" / "c": a bird block opening the file is code (FC04a fixed) *)
+  ws_table 62%N = false /\
+  lhs_create_mask ws_table true false [62; 32; 98; 10; 10; 99]%N = Ok [mkspan 5 6] /\
+  lhs_create_mask ws_table false true [62; 32; 98; 10; 10; 99]%N = Ok [mkspan 2 3].
+Proof. vm_compute. repeat split; reflexivity. Qed.
